@@ -44,7 +44,7 @@ func NewEthernet() *Ethernet {
 func (e *Ethernet) Len() (n uint16) {
 	n = 0
 	n += 12
-	if e.VLANID.VID != 0 {
+	if e.VLANID.VID != 0 || e.VLANID.PCP != 0 || e.VLANID.DEI != 0 {
 		n += 4
 	}
 	n += 2
@@ -63,7 +63,7 @@ func (e *Ethernet) MarshalBinary() (data []byte, err error) {
 	copy(data[n:], e.HWSrc)
 	n += len(e.HWSrc)
 
-	if e.VLANID.VID != 0 {
+	if e.VLANID.VID != 0 || e.VLANID.PCP != 0 || e.VLANID.DEI != 0 {
 		bytes, err = e.VLANID.MarshalBinary()
 		if err != nil {
 			return
